@@ -143,6 +143,11 @@ func propC06(r *kernel.Run) {
 			before := countNodeInfos(w)
 			sp := HonestSpec(n)
 			sp.Nonce = t.payload
+			if tp.Draw(3) == 0 {
+				// the node signed its request some time ago (queued, relayed) or simply back-dates it: the token's age is
+				// measured against the server's clock all the same
+				sp.NotBefore = sp.NotBefore.Add(-tp.DurLog(time.Nanosecond, 5*365*24*time.Hour))
+			}
 			req, _ := BuildFetch(sp)
 			var resp *types.FetchNodeCredentialsResponse
 			var err error
